@@ -147,7 +147,8 @@ func (l *Lexer) Split() []*Token {
 			next = 0
 		}
 		switch char {
-		case ' ':
+		case ' ', '\t', '\n', '\r':
+			// Tab and line end separate words like a space does
 			if strStart {
 				tokLen++
 				break
